@@ -45,7 +45,10 @@ class Gen:
                              '<input type="text" value="v">', '<textarea>t &lt; u</textarea>', '<button>go</button>', '<button type="submit" class="btn">send the form now</button>',
                              '<iframe src="/frame"></iframe>', '<iframe></iframe>', '<iframe src="/f">Your browser does not support frames</iframe>',
                              '<video src="v.webm">plain fallback</video>', '<audio src="a.ogg"><b>no</b> audio</audio>',
-                             '<object data="o.swf">fallback <i>words</i></object>'])
+                             '<object data="o.swf">fallback <i>words</i></object>',
+                             '<svg width="4"><script>var s = 1;</script><circle r="2"></circle></svg>',
+                             '<svg><style>circle { fill: red }</style><circle r="1"></circle><script>var t = 2;</script></svg>',
+                             '<math><mi>x</mi><style>mi { color: red }</style></math>'])
         return '<ins>%s</ins>' % self.words(1, 2) if r.random() < 0.5 else '<del>%s</del>' % self.words(1, 2)
 
     def inlines(self):
@@ -57,13 +60,15 @@ class Gen:
         r = self.r
         k = r.random()
         if k < 0.45 or depth > 2:
-            t = r.choice(BLOCK[:5])
+            t = r.choice(BLOCK[:5] + BLOCK[:5] + ['pre'])       # <pre>: its name has the separable tag name 'p' as a prefix
             attrs = r.choice(['', '', ' class="c"', ' id="i%d"' % r.randint(1, 9), ' title="a &quot;q&quot; &lt;t&gt;"',
-                              ' style="display: inline"', ' style="display:inline-block; color: red"', ' hidden', ' role="presentation" class="inline"'])
+                              ' style="display: inline"', ' style="display:inline-block; color: red"', ' hidden', ' role="presentation" class="inline"',
+                              # attribute values wrapped over several lines, as hand-written and generated markup has them
+                              ' style="margin: 0;\n padding: 4px"', ' title="see\nannex\tB"', '\n  class="c"\n  data-x="1"\n'])
             return '<%s%s>%s</%s>' % (t, attrs, self.inlines(), t)
         if k < 0.60:
             t = r.choice(['ul', 'ol'])
-            return '<%s>%s</%s>' % (t, ''.join('<li%s>%s</li>' % (r.choice(['', '', '', ' style="display: inline;"', ' class="inline-list"']), self.inlines())
+            return '<%s>%s</%s>' % (t, ''.join('<li%s>%s</li>' % (r.choice(['', '', '', ' style="display: inline;"', ' class="inline-list"', ' title="see\nannex"']), self.inlines())
                                                for _ in range(r.randint(1, 3))), t)
         if k < 0.70:
             rows = ''.join('<tr>%s</tr>' % ''.join('<td>%s</td>' % self.words(1, 2) for _ in range(r.randint(1, 3)))
@@ -111,7 +116,12 @@ class Gen:
             return self.body()
         for _ in range(r.randint(1, 3)):
             k = r.random()
-            idxs = [i for i, t in enumerate(toks) if not t.startswith('<') and t.strip()]
+            # text inside embedded SVG / MathML is left alone: a style or script there is not raw text to the parser, and text with
+            # '&' or '<' in it is the listed finding C09-foreign-cdata, which has its own replay
+            def foreign(i):
+                before = ''.join(t for t in toks[:i] if t.startswith('<'))
+                return before.count('<svg') > before.count('</svg>') or before.count('<math') > before.count('</math>')
+            idxs = [i for i, t in enumerate(toks) if not t.startswith('<') and t.strip() and not foreign(i)]
             if k < 0.35 and idxs:          # change words in a text run
                 i = r.choice(idxs)
                 ws = toks[i].split(' ')
